@@ -316,6 +316,17 @@ void snoopy_configuration_dtor ()
         CFG->syslog_ident_format_malloced = SNOOPY_FALSE;                 /* Set this to false         - REQUIRED (see above) */
         CFG->syslog_ident_format          = SNOOPY_SYSLOG_IDENT_FORMAT;   /* Set this to default value - REQUIRED (see above) */
     }
+
+
+    /*
+     * Reset all remaining (non-string) config settings to their defaults too
+     *
+     * In non-thread-safe builds the configuration structure outlives the call:
+     * error_logging, syslog_facility, syslog_level and both length limits set
+     * by one snoopy.ini would otherwise stay in force for later calls, even
+     * after the option or the whole file is gone.
+     */
+    snoopy_configuration_setDefaults(CFG);
 }
 
 
